@@ -23,7 +23,7 @@ def declare(ck: Checker, p='C01'):
 def run(ck: Checker):
     declare(ck)
     ck.rule('C01-4', 'FIFO hand-off: SingleLane inserts and removes at opposite ends under one mutex and signals the opposite condition; queue class is FIFO (AGREE)', minimum=2)
-    ck.rule('C01-6', 'submit wrapper passes the element as first argument of the user function and returns the future (ORIGIN)', minimum=2)
+    ck.rule('C01-6', 'submit wrapper passes the element as first argument of the user function and returns the future; the parmapper generators yield on every output of the fifo stream (ORIGIN)', minimum=6)
 
     outer = ck.repo.func(STREAMER, 'fifo_stream')
     m = fifo.discover(ck.repo, outer)
@@ -120,6 +120,11 @@ def check_submit_wrappers(ck: Checker, rid: str):
             probs.append('wrapper does not return the future on a single return')
         else:
             v = rets[0].value
+            if isinstance(v, ast.Name):
+                # `fut = executor.submit(...); return fut`
+                defs = [n for n in walk_shallow_func(f.node) if isinstance(n, ast.Assign) and len(n.targets) == 1 and is_name(n.targets[0], v.id)]
+                if len(defs) == 1:
+                    v = defs[0].value
             if not isinstance(v, ast.Call):
                 probs.append('returned value is not a call')
             elif style == 'submit':
@@ -147,3 +152,25 @@ def check_submit_wrappers(ck: Checker, rid: str):
                     if kwname and not any(k.arg is None and is_name(k.value, kwname) for k in inner.keywords):
                         probs.append(f'`**{kwname}` is not forwarded')
         ck.ob(rid, f, rets[0] if rets else f.node, not probs, '; '.join(probs) if probs else f'returns the future of `self._func({pos[0]}, **{kwname})`')
+    # the four parmapper generators hand on everything the fifo stream yields: `yield from fifo_stream(...)` (or the
+    # explicit loop), directly or through a local -- a stream that is built but not yielded from produces nothing
+    from .common import STREAMER_ASYNC
+
+    for rel, cname, itn, callee in ((STREAMER, 'Parmapper', '__iter__', 'fifo_stream'), (STREAMER, 'ParmapperAsync', '__iter__', 'fifo_stream'), (STREAMER_ASYNC, 'AsyncParmapper', '__aiter__', 'async_fifo_stream'), (STREAMER_ASYNC, 'AsyncParmapperAsync', '__aiter__', 'async_fifo_stream')):
+        f = ck.repo.cls(rel, cname).method(itn)
+        calls = [n for n in walk_shallow_func(f.node) if isinstance(n, ast.Call) and dotted(n.func) == callee]
+        ck.need(calls, f'{f.key}: no call of {callee}')
+        c = calls[0]
+        names = {n.targets[0].id for n in walk_shallow_func(f.node) if isinstance(n, ast.Assign) and n.value is c and isinstance(n.targets[0], ast.Name)}
+        ok = False
+        for n in walk_shallow_func(f.node):
+            if isinstance(n, ast.YieldFrom) and (n.value is c or (isinstance(n.value, ast.Name) and n.value.id in names)):
+                ok = True
+            if isinstance(n, ast.Return) and (n.value is c or (isinstance(n.value, ast.Name) and n.value.id in names)) and not any(isinstance(y, (ast.Yield, ast.YieldFrom)) for y in walk_shallow_func(f.node)):
+                ok = True  # not a generator itself: returns the stream object
+            if isinstance(n, (ast.For, ast.AsyncFor)) and (n.iter is c or (isinstance(n.iter, ast.Name) and n.iter.id in names)) and isinstance(n.target, ast.Name):
+                v_ = n.target.id
+                ys = [y for b in n.body for y in ast.walk(b) if isinstance(y, ast.Yield)]
+                if len(ys) == 1 and is_name(ys[0].value, v_) and len(n.body) == 1:
+                    ok = True
+        ck.ob(rid, f, c, ok, f'every output of {callee} is yielded on, unchanged' if ok else f'the stream built by `{callee}(…)` is not yielded from (or its outputs are altered / filtered on the way): parmap would produce nothing, or not one output per input')
